@@ -106,7 +106,10 @@ class Oracle(object):
     elif kind == "fit" and not op.get("malformed") and ev.get("outcome") != "skip":
       cp = live["kwargs"].get("calibration_params")
       if cp is None:
-        return
+        # documented: without calibration_params the threshold is calibrated with
+        # calibrate_threshold's defaults, i.e. for accuracy
+        cp = {}
+        m.cov["fits_with_default_calibration"] += 1
       if not _valid_cp(cp):
         self.rejection(m, ev, live, h, "fit", cp)
       elif ev["outcome"] == "ok":
